@@ -26,8 +26,8 @@ pub assume_specification[ String::len ](s: &String) -> (r: usize)
 pub uninterp spec fn vx_starts_with<P>(s: Seq<char>, p: P) -> bool;
 pub assume_specification<P: core::str::pattern::Pattern>[ str::starts_with::<P> ](s: &str, p: P) -> (r: bool)
     ensures r == vx_starts_with(s@, p);
-pub axiom fn axiom_starts_with_char(s: Seq<char>, c: char)
-    ensures vx_starts_with(s, c) == (s.len() > 0 && s[0] == c);
+pub broadcast axiom fn axiom_starts_with_char(s: Seq<char>, c: char)
+    ensures #[trigger] vx_starts_with(s, c) == (s.len() > 0 && s[0] == c);
 
 // X7 call shim for `s.encode_utf16().count()` (Iterator::count is a provided
 // trait method for EncodeUtf16: no assume_specification possible): the number
